@@ -27,6 +27,7 @@ struct Mdl {
     eps: Vec<u32>, // = den everywhere when there is no end distribution
     kind: &'static str, // plain | optend_none | optend_some
     ctor: &'static str, // float | prob | log
+    layout: &'static str, // c (row major) | f (column major) | sliced (row major, via a strided view)
 }
 
 enum Obj {
@@ -34,18 +35,27 @@ enum Obj {
     O(OptEnd),
 }
 
-fn mat(rows: &[Vec<u32>], den: u32) -> Array2<f64> {
+/// same VALUES, different memory layout: the constructors keep the layout they are given
+fn mat(rows: &[Vec<u32>], den: u32, layout: &str) -> Array2<f64> {
     let r = rows.len();
     let c = rows[0].len();
-    Array2::from_shape_fn((r, c), |(i, j)| rows[i][j] as f64 / den as f64)
+    match layout {
+        // column major: transposed data in standard layout, axes reversed
+        "f" => Array2::from_shape_fn((c, r), |(j, i)| rows[i][j] as f64 / den as f64).reversed_axes(),
+        "sliced" => {
+            let big = Array2::from_shape_fn((2 * r, c), |(i, j)| if i % 2 == 0 { rows[i / 2][j] as f64 / den as f64 } else { 0.25 });
+            big.slice(ndarray::s![..;2, ..]).to_owned()
+        }
+        _ => Array2::from_shape_fn((r, c), |(i, j)| rows[i][j] as f64 / den as f64),
+    }
 }
 fn vec1(v: &[u32], den: u32) -> Array1<f64> {
     Array1::from_shape_fn(v.len(), |i| v[i] as f64 / den as f64)
 }
 
 fn build(md: &Mdl) -> Obj {
-    let a = mat(&md.a, md.den);
-    let b = mat(&md.b, md.den);
+    let a = mat(&md.a, md.den, md.layout);
+    let b = mat(&md.b, md.den, md.layout);
     let pi = vec1(&md.pi, md.den);
     let e = vec1(&md.eps, md.den);
     match md.kind {
@@ -106,7 +116,11 @@ fn rows_json(r: &[Vec<u32>]) -> Value {
 }
 
 fn run_model(log: &mut Log, tag: &str, md: &Mdl, obs_list: &[Vec<usize>]) {
-    let cfg = json!({"kind": md.kind, "ctor": md.ctor, "s": md.s, "m": md.m, "den": md.den,
+    log.oblige(&format!("ctor_{}_{}", md.kind, md.ctor));
+    if md.layout == "f" && md.s >= 2 {
+        log.oblige("layout_column_major");
+    }
+    let cfg = json!({"kind": md.kind, "ctor": md.ctor, "layout": md.layout, "s": md.s, "m": md.m, "den": md.den,
         "a": rows_json(&md.a), "b": rows_json(&md.b), "pi": md.pi, "eps": md.eps});
     if !log.begin(tag, cfg) {
         return;
@@ -226,7 +240,8 @@ fn rand_model(rng: &mut Rng, s: usize, m: usize, den: u32, styles: &[u64], endmo
         vec![den; s]
     };
     let ctor = *rng.pick(&["float", "float", "prob", "log"]);
-    Mdl { s, m, den, a, b, pi, eps, kind, ctor }
+    let layout = *rng.pick(&["c", "c", "f", "f", "sliced"]);
+    Mdl { s, m, den, a, b, pi, eps, kind, ctor, layout }
 }
 
 fn rand_obs(rng: &mut Rng, t: usize, m: usize) -> Vec<usize> {
@@ -288,7 +303,8 @@ pub fn drive(log: &mut Log) {
                                     pi: pi.clone(),
                                     eps: e.clone().unwrap_or(vec![2, 2]),
                                     kind: if e.is_some() { "optend_some" } else if k % 2 == 0 { "plain" } else { "optend_none" },
-                                    ctor: "float",
+                                    ctor: ["float", "prob", "log"][(k % 3) as usize],
+                                    layout: if k % 4 < 2 { "f" } else { "c" },
                                 };
                                 log.oblige("mc_family");
                                 run_model(log, "ex", &md, &all_obs);
